@@ -16,6 +16,7 @@ import (
 	"verif/harness/internal/c11"
 	"verif/harness/internal/c12"
 	"verif/harness/internal/c13"
+	"verif/harness/internal/rpack"
 	"verif/harness/internal/c14"
 	"verif/harness/internal/c15"
 	"verif/harness/internal/c16"
@@ -38,6 +39,8 @@ func main() {
 		os.Exit(c03.Main(os.Args[2:]))
 	case "c12":
 		os.Exit(c12.Main(os.Args[2:]))
+	case "rpack":
+		os.Exit(rpack.Main(os.Args[2:]))
 	case "c13":
 		if len(os.Args) > 2 && (os.Args[2] == "composite" || os.Args[2] == "compsets") {
 			os.Exit(c13.CompositeMain(os.Args[2:]))
